@@ -12,7 +12,7 @@
    the implementation's output file is compared with it on every run, for inputs of differing
    coverage resolution and every requested output coverage resolution. *)
 From Coq Require Import QArith.
-From HS Require Import Prelude Cov Map Spec Ops Spec2 Params MapProofs MultiProofs CatRefine CatCov CatChk CatChkProofs Exec Exec2.
+From HS Require Import Prelude Cov Map Spec Ops Spec2 Params MapProofs MultiProofs CatRefine CatCov CatChk CatChkProofs WideProofs WideMaps CatOrInt Exec Exec2.
 Open Scope Z_scope.
 
 Section C18.
@@ -147,6 +147,18 @@ Theorem C18_or_overlap_never_raises :
             (cat_cov_pix (p_V P) (p_valid P) (p_dv P) ncv nf inputs) <> None.
 Proof. exact cat_or_never_raises. Qed.
 
+(* or_overlap on zero-sentinel integer / wide-mask maps: bit b of the result at a pixel is set iff it is set in
+   some input valid there — the plain bitwise or of the inputs *)
+Theorem C18_or_overlap_is_the_bitwise_or_of_the_inputs :
+  forall (N ncv nf : Z) (inputs : list (smap Z)) out,
+    0 <= ncv -> 0 < nf -> N = ncv * nf ->
+    (forall m, In m inputs -> okin wide_params N m /\ nested wide_params nf m) ->
+    cat_chk Z (fun v => negb (v =? 0)) 0 Z.add Z.lor Z.land 0 (fun v => v =? 0) false
+            true true ncv nf 0 inputs (cat_cov_pix Z (fun v => negb (v =? 0)) 0 ncv nf inputs) = Some out ->
+    forall q b, 0 <= q < N ->
+      Z.testbit (read Z 0 out q) b = existsb (fun v => Z.testbit v b) (cvals wide_params inputs q).
+Proof. exact or_overlap_is_bitwise_or. Qed.
+
 Print Assumptions C18_union_takes_the_only_valid_input.
 Print Assumptions C18_union_invalid_elsewhere.
 Print Assumptions C18_concatenation_routine_is_well_formed_and_pointwise.
@@ -157,3 +169,4 @@ Print Assumptions C18_concatenation_routine_with_its_own_visiting_list.
 Print Assumptions C18_checked_concatenation.
 Print Assumptions C18_check_overlap_raises_iff_inputs_share_a_valid_pixel.
 Print Assumptions C18_or_overlap_never_raises.
+Print Assumptions C18_or_overlap_is_the_bitwise_or_of_the_inputs.
